@@ -8,6 +8,7 @@ import Peppi.Lemmas.C10A
 import Peppi.Stream
 import Peppi.Hash
 import Peppi.Lemmas.Unified2
+import Peppi.HashValue
 import Peppi.Prog
 import Peppi.ReadProg
 import Peppi.ReadStream
@@ -67,6 +68,13 @@ theorem C11_range_any (T : TextOracle) (r : Replay) (s : Start) (gk : Option Gec
       g.hashedLen = (if hash then some (r.encodeAny s.version (portOccupancy s) gk).length else none) :=
   _root_.Peppi.C11_range_any T r s gk h hash
 
+/- from `Peppi.HashValue` -/
+theorem C11_value_any (T : TextOracle) (r : Replay) (s : Start) (gk : Option GeckoBlocks) (h : r.WFAny T s gk) (hash : Bool) :
+    ∃ g, readSlp T { skipFrames := false, computeHash := hash } (r.encodeAny s.version (portOccupancy s) gk) = .ok g ∧
+      g.hashStr (r.encodeAny s.version (portOccupancy s) gk) =
+        (if hash then some (formatHash (xxh3_64 (r.encodeAny s.version (portOccupancy s) gk))) else none) :=
+  _root_.Peppi.C11_value_any T r s gk h hash
+
 /- from `Peppi.Prog` -/
 open Peppi.Prog in
 theorem frag {α} (p : Prog α) : ∀ (h : HSrc),
@@ -96,5 +104,9 @@ theorem readSlpS_frag (T : TextOracle) (opts : Opts) (s : Stream) :
 /- from `Peppi.PeppiJson` -/
 theorem decPeppiJ_enc (h : Option String) (q : Option Bool) : decPeppiJ (encPeppiJ h q) = .ok ⟨true, h, q⟩ :=
   _root_.Peppi.decPeppiJ_enc h q
+
+/- from `Peppi.HashValue` -/
+theorem hashStr_inj (a b : Bytes) (h : formatHash (xxh3_64 a) = formatHash (xxh3_64 b)) : xxh3_64 a = xxh3_64 b :=
+  _root_.Peppi.hashStr_inj a b h
 
 end Peppi.Props.C11
